@@ -114,8 +114,9 @@ def gen(args):
         xs = by[f][:]
         rnd.shuffle(xs)
         pick += xs[:per]
-    for n, x in enumerate(pick):
-        x["id"] = "m%03d" % n
+    import hashlib
+    for x in pick:
+        x["id"] = "x" + hashlib.md5(("%s:%d:%s:%s" % (x["file"], x["line"], x["op"], x["after"])).encode()).hexdigest()[:7]
     json.dump(pick, open(os.path.join(VERIF, "selftest", "automut_cands.json"), "w"), indent=1)
     print(len(c), "candidates,", len(pick), "sampled")
 
@@ -128,8 +129,9 @@ def run(args):
     resp = os.path.join(verif, "selftest", "automut_results.json")
     res = json.load(open(resp)) if os.path.exists(resp) else {}
     tdir = args.get("--target", os.path.join(os.path.dirname(repo), "automut_target"))
+    done = {(r["file"], r["line"], r["op"], r["after"]) for r in res.values() if r.get("status") != "stale"}
     for c in cands:
-        if ids and c["id"] not in ids or (not ids and c["id"] in res):
+        if ids and c["id"] not in ids or (not ids and (c["id"] in res or (c["file"], c["line"], c["op"], c["after"]) in done)):
             continue
         p = os.path.join(repo, c["file"])
         orig = open(p).read()
